@@ -180,10 +180,11 @@ func drawCase(t *rapid.T, avoid bool) Case {
 	tp := rapid.SampledFrom(topos).Draw(t, "topo")
 	c := Case{Topo: tp.Name, Avoid: avoid}
 	c.DeclRev = rapid.Bool().Draw(t, "declrev")
-	// indexes: none at all in about a fifth of the cases, otherwise each with probability 1/2
-	noIdx := rapid.IntRange(0, 4).Draw(t, "noidx") == 0
+	// indexes: none at all in an eighth of the cases; otherwise the index on n (what inverts joins)
+	// with probability 2/3 per type and the one on the foreign key with probability 1/2 per relation
+	noIdx := rapid.IntRange(0, 7).Draw(t, "noidx") == 0
 	for i := 0; i < tp.NCols; i++ {
-		c.IdxN = append(c.IdxN, !noIdx && rapid.Bool().Draw(t, "idxn"))
+		c.IdxN = append(c.IdxN, !noIdx && rapid.IntRange(0, 2).Draw(t, "idxn") > 0)
 	}
 	for range tp.Rels {
 		c.IdxFK = append(c.IdxFK, !noIdx && rapid.Bool().Draw(t, "idxfk"))
